@@ -661,3 +661,23 @@ package cache
 //@   nosafety all pre
 //@   assert at call middleware/cache.equalNameASCIIFold#1: arg0 == e.question.Name && arg1 == q.Name && e.question.Qtype == q.Qtype && e.question.Qclass == q.Qclass
 //@   assert at append#1: lastret("middleware/cache.equalNameASCIIFold") && e.question.Qtype == q.Qtype && e.question.Qclass == q.Qclass && lastret("(*middleware/cache.CacheEntry).scoped")
+//@
+//@ # ---- C19: background refresh. Only shared (unscoped) entries are refreshed, on behalf of every client: the refresh is
+//@ # asked WITHOUT any client-subnet option (whatever the triggering client sent), and a refreshed answer for which the
+//@ # authority declares a non-zero scope never replaces the shared entry (it may be served only inside that scope)
+//@ pred optsNoNil(os []dns.EDNS0) := forall i int :: {os[i]} 0 <= i && i < len(os) ==> os[i] != nil
+//@ func withoutClientSubnet
+//@   modifies elems(opts)
+//@   ensures region(result) == region(opts) && offset(result) == offset(opts) && len(result) <= len(opts)
+//@   ensures forall i int :: {result[i]} 0 <= i && i < len(result) ==> !dyntype(result[i], *dns.EDNS0_SUBNET)
+//@   loop 1 invariant region(keep) == region(opts) && offset(keep) == offset(opts) && cap(keep) == cap(opts) && 0 <= len(keep) && len(keep) <= rangeidx
+//@   loop 1 invariant forall j int :: {keep[j]} 0 <= j && j < len(keep) ==> !dyntype(keep[j], *dns.EDNS0_SUBNET)
+//@   loop 1 invariant forall j int :: {opts[j]} rangeidx <= j && j < len(opts) ==> opts[j] == old(opts[j])
+//@
+//@ func (*PrefetchQueue).processPrefetch
+//@   abstract
+//@   nosafety all pre
+//@   assert at store dns.OPT.Option#1: value == lastret("middleware/cache.withoutClientSubnet")
+//@   assert at call middleware/cache.withoutClientSubnet#1: arg0 == lastret("(*github.com/miekg/dns.Msg).IsEdns0").Option && lastret("(*github.com/miekg/dns.Msg).IsEdns0") != nil
+//@   assert at call (*middleware/cache.Cache).prefetchExchange#1: arg2 == prefetchReq && prefetchReq == lastret("(*github.com/miekg/dns.Msg).Copy") && (lastret("(*github.com/miekg/dns.Msg).IsEdns0") != nil ==> calls("middleware/cache.withoutClientSubnet") == 1)
+//@   assert at call (*middleware/cache.Store).ReplaceIfCurrent#1: arg1 == req.Key && arg2 == req.Entry && arg3 == lastret("(*middleware/cache.Cache).prefetchExchange") && lastret("(*middleware/cache.Cache).prefetchExchange", 1) == nil && (!lastret("internal/ecs.ReadResponseScope", 1) || lastret("(*middleware/cache.CacheEntry).scoped#1"))
